@@ -152,13 +152,13 @@ pub struct Plan {
     pub kind: usize,
     /// false = clean class (no fault annotations at all), true = fault-injecting class
     pub faulty: bool,
-    /// element shape for vector kinds: 0 = `Tok` (8 bytes, align 4), 1 = `Wide` (16 bytes, align 16), 2 = `Plain` (no drop glue), 3 = `ZDrop` (zero-sized, drop glue; counting oracle)
+    /// element shape for vector kinds: 0 = `Tok` (8 bytes, align 4), 1 = `Wide` (256 bytes, align 16), 2 = `Plain` (no drop glue), 3 = `ZDrop` (zero-sized, drop glue; counting oracle)
     pub elem: u8,
     /// every element carries the same payload value (identities stay distinct)
     pub uniform: bool,
     pub ops: Vec<Op>,
 }
-pub const ELEM_NAMES: [&str; 4] = ["Tok", "Wide16", "PlainNoDrop", "ZstDrop"];
+pub const ELEM_NAMES: [&str; 4] = ["Tok", "Wide256", "PlainNoDrop", "ZstDrop"];
 
 /// The std-provided `Iterator` / `DoubleEndedIterator` methods driven through `it.by_ref()`
 /// (operation `Adapt`). A realistic change is overriding one of them "for speed".
